@@ -5,11 +5,14 @@
 set -u
 cd /verif
 filter=${1:-}
-out=/tmp/alt_seeds.log
+out=${SEEDS_LOG:-/tmp/alt_seeds.log}
 : > $out
-for d in seeded/*/; do
+# the history / vector / pattern seeds first (fast checks), the matcher seeds (about three minutes each) last
+order=$( (ls -d seeded/*/ | grep -vE "seeded/C(01|02|03|04|05|10)-"; ls -d seeded/*/ | grep -E "seeded/C(01|02|03|04|05|10)-") )
+for d in $order; do
   name=$(basename $d)
   [ -n "$filter" ] && [[ "$name" != *$filter* ]] && continue
+  [ -n "${SEEDS_SKIP:-}" ] && grep -q "^CAUGHT $name " "$SEEDS_SKIP" && continue
   prop=$(python3 -c "import json;print(json.load(open('$d/meta.json'))['property'])")
   res=$(tools/try_seed_alt.sh $d/patch.diff $prop 2>&1 | grep -v WARNING)
   if echo "$res" | grep -q "^VIOLATION"; then
